@@ -148,11 +148,11 @@ func sroaFunc(p *packages.Package, f *ast.File, fd *ast.FuncDecl, isNewStruct fu
 		if !ok {
 			return true
 		}
-		ue, ok := as.Rhs[0].(*ast.UnaryExpr)
+		ue, ok := sroaUnparen(as.Rhs[0]).(*ast.UnaryExpr)
 		if !ok || ue.Op != token.AND {
 			return true
 		}
-		lit, ok := ue.X.(*ast.CompositeLit)
+		lit, ok := sroaUnparen(ue.X).(*ast.CompositeLit)
 		if !ok {
 			return true
 		}
@@ -363,7 +363,7 @@ func sroaFunc(p *packages.Package, f *ast.File, fd *ast.FuncDecl, isNewStruct fu
 			}
 			switch x := n.(type) {
 			case *ast.SelectorExpr:
-				if id, ok := x.X.(*ast.Ident); ok && alias[info.Uses[id]] {
+				if id, ok := sroaUnparen(x.X).(*ast.Ident); ok && alias[info.Uses[id]] {
 					sel, isSel := info.Selections[x]
 					if !isSel || sel.Kind() != types.FieldVal || len(sel.Index()) != 1 {
 						okUses = false
@@ -450,6 +450,7 @@ func sroaFunc(p *packages.Package, f *ast.File, fd *ast.FuncDecl, isNewStruct fu
 				}
 				if o != nil && alias[o] {
 					okUses = false
+					sroaDebug(fmt.Sprintf("unhandled mention of %s at %s", id.Name, p.Fset.Position(id.Pos())))
 				}
 			}
 			return okUses
@@ -512,7 +513,11 @@ func sroaFunc(p *packages.Package, f *ast.File, fd *ast.FuncDecl, isNewStruct fu
 		for i := 0; i < r.st.NumFields(); i++ {
 			fl := r.st.Field(i)
 			if !given[fl.Name()] {
-				def.WriteString(fmt.Sprintf("%s = *new(%s); ", varName(fl), typeOf[fl.Name()]))
+				if zeroIsNil(fl.Type()) {
+					def.WriteString(fmt.Sprintf("%s = nil; ", varName(fl)))
+				} else {
+					def.WriteString(fmt.Sprintf("%s = *new(%s); ", varName(fl), typeOf[fl.Name()]))
+				}
 			}
 		}
 		def.WriteString("}")
@@ -597,4 +602,23 @@ func sroaDebug(msg string) {
 	if os.Getenv("VCHECK_DEBUG_SROA") != "" {
 		fmt.Println("sroa:", msg)
 	}
+}
+
+func sroaUnparen(e ast.Expr) ast.Expr {
+	for {
+		p, ok := e.(*ast.ParenExpr)
+		if !ok {
+			return e
+		}
+		e = p.X
+	}
+}
+
+// zeroIsNil: the zero value of t is written `nil`.
+func zeroIsNil(t types.Type) bool {
+	switch t.Underlying().(type) {
+	case *types.Interface, *types.Pointer, *types.Slice, *types.Map, *types.Chan, *types.Signature:
+		return true
+	}
+	return false
 }
